@@ -266,7 +266,13 @@ def check(spec, env):
                 # a yield that lost the race against this cancel() resolved nothing
                 tc = [c for c in cancels.get(s, []) if c[2] is True]
                 if tc:
-                    rb, rr = min(c[0] for c in tc), min(c[1] for c in tc)
+                    # which of several overlapping cancel() calls that returned True did the resolving
+                    # is not observable: any call that began before the first of them returned may be
+                    # it (the others merely saw the cancelled state), so the resolving call "has
+                    # returned" for sure only once all of those have
+                    first_ret = min(c[1] for c in tc)
+                    cands_ = [c for c in tc if c[0] < first_ret]
+                    rb, rr = min(c[0] for c in cands_), max(c[1] for c in cands_)
             elif st[0] == "exc" and getattr(st[1], "tag", (None,))[0] == "pollfn":
                 cn = st[1].tag[1]
                 rb, rr = raises.get(cn, 1 << 60), (pends[cn][0] if cn in pends else 1 << 60)
